@@ -198,6 +198,25 @@ def recanon(s):
     return s
 
 
+def eq_consts(c):
+    """c is `x == k1 || x == k2 ...` over one scrutinee x and integer constants: (x, [k...]); else None"""
+    def konst(x):
+        if x[0] == "n":
+            return x[1]
+        if x[0] == "ctor" and len(x[2]) == 1 and x[2][0][0] == "n":
+            return x[2][0][1]  # a constant of an integer newtype (derived PartialEq is structural)
+        return None
+    if c[0] == "op" and c[1] == "==":
+        for k_, x in ((c[2], c[3]), (c[3], c[2])):
+            if konst(k_) is not None and konst(x) is None:
+                return x, [konst(k_)]
+    if c[0] == "op" and c[1] == "||":
+        a, b_ = eq_consts(c[2]), eq_consts(c[3])
+        if a and b_ and a[0] == b_[0]:
+            return a[0], a[1] + b_[1]
+    return None
+
+
 def redundant_special_case(c, sa, sb):
     """`if x == k { return A }; B` where B, specialised to x = k, does nothing but return A: the special case is
     redundant and the canonical form is B alone.  Decided only for B made of guards and one infallible slice."""
@@ -363,6 +382,8 @@ class Builder:
         self.drops_remainder = False
         self.input_alias = None  # a region value (sym) that denotes this builder's input at position alias_at
         self.alias_at = None
+        self.parent = None      # enclosing builder reading the same input (None for a region / the top)
+        self.own_peeks = {}     # (position, alpha-normalised nested grammar) -> binder of a peek step of this builder
 
     # -- token for the current position
     def tok(self):
@@ -374,6 +395,7 @@ class Builder:
 
     def child(self, same_input=True, drops=False):
         nb = Builder(self.counter, self.cur if same_input else None)
+        nb.parent = self if same_input else None
         nb.drops_remainder = drops or (same_input and self.drops_remainder)
         if same_input and self.input_alias is not None and self.alias_at == self.cur:
             nb.input_alias, nb.alias_at = self.input_alias, nb.cur
@@ -474,6 +496,16 @@ class Builder:
     def peek(self, fn):
         b = self.counter.fresh()
         seq = self._nested(fn, drops=True)
+        # looking at the same bytes again (a helper that re-reads what its caller already peeked, with nothing consumed
+        # in between) yields the same value: reuse the dominating peek
+        import copy
+        key = (self.cur, json.dumps(renumber(copy.deepcopy(seq)), sort_keys=True))
+        bld = self
+        while bld is not None:
+            if key in bld.own_peeks:
+                return V(bld.own_peeks[key])
+            bld = bld.parent
+        self.own_peeks[key] = b
         self.steps.append(["peek", b, seq])
         return V(b)
 
@@ -513,6 +545,13 @@ class Builder:
         if not sb["steps"] and sb["ret"] and sb["ret"][0] == "err" and sb["ret"][2] == "Error":
             self.guard(canon(["not", c]), sb["ret"][1])
             return self._splice(sa, ca)
+        # `if x == k { A } else { B }` is `match x { k => A, _ => B }` (and the negated form)
+        ec = eq_consts(c)
+        if ec is not None:
+            return self._switch_built(ec[0], [(sorted(set(ec[1])), sa, ca)], sb, cb)
+        nc = eq_consts(canon(["not", c]))
+        if nc is not None:
+            return self._switch_built(nc[0], [(sorted(set(nc[1])), sb, cb)], sa, ca)
         # `if c { Some(parse) } else { None }` is nom's cond(c, parse)
         def is_none(s):
             return not s["steps"] and s["ret"] == ["ok", NONE]
@@ -562,25 +601,61 @@ class Builder:
                 if scrut[1] in consts:
                     return self._inline(fn)
             return self._inline(default)
-        def rejects(s):
-            return not s["steps"] and s["ret"] and s["ret"][0] == "err" and s["ret"][2] == "Error"
         built = []
         for consts, fn in arms:
             s = self._nested(fn)
             built.append((sorted(consts), s, self._last_child))
         d = self._nested(default)
         dchild = self._last_child
+        return self._switch_built(scrut, built, d, dchild)
+
+    def _switch_built(self, scrut, built, d, dchild):
+        """built: [(sorted consts, seq, child builder)], d: default seq"""
+        def rejects(s):
+            return not s["steps"] and s["ret"] and s["ret"][0] == "err" and s["ret"][2] == "Error"
+        def not_in(c):
+            """c says `scrut is none of K`: K"""
+            if c[0] == "op" and c[1] == "&&":
+                a, b_ = not_in(c[2]), not_in(c[3])
+                return a + b_ if a is not None and b_ is not None else None
+            ec = eq_consts(canon(["not", c]))
+            return ec[1] if ec is not None and ec[0] == scrut else None
+        # a default that starts by rejecting everything but some constants of the same scrutinee is an arm for those
+        # constants with a rejecting default (the form a trailing `match x { k => B, _ => Err }` was given)
+        while d["steps"] and d["steps"][0][0] == "guard" and not_in(d["steps"][0][1]) is not None:
+            ks = not_in(d["steps"][0][1])
+            seen = set(c for cs, _, _ in built for c in cs)
+            arm = {"steps": d["steps"][1:], "ret": d["ret"]}
+            for c in ks:
+                if c not in seen:
+                    built.append(([c], arm, None))
+            d, dchild = {"steps": [], "ret": ["err", d["steps"][0][2], "Error"]}, None
+        # a default that is itself a dispatch on the same scrutinee continues this one (if / else-if chains, a helper
+        # that re-dispatches on the value its caller already tested)
+        while len(d["steps"]) == 1 and d["steps"][0][0] == "switch" and d["steps"][0][2] == scrut and d["ret"] and d["ret"][0] == "ok":
+            inner = d["steps"][0]
+            wrap, hole = d["ret"][1], ["v", inner[1]]
+            def mapped(s):
+                # the default returns f(inner dispatch): each inner arm returns f(its value)
+                if wrap == hole or not s["ret"] or s["ret"][0] != "ok":
+                    return s
+                return {"steps": s["steps"], "ret": ["ok", subst(wrap, hole, s["ret"][1])]}
+            seen = set(c for cs, _, _ in built for c in cs)
+            for c, s in inner[3]:
+                if c not in seen:
+                    built.append(([c], mapped(s), None))
+            d, dchild = mapped(inner[4]), None
         live = [x for x in built if not rejects(x[1])]
         # `match x { c => body, _ => Err }` is a guard (reject unless x == c) followed by body;
         # `match x { c => Err, _ => body }` is a guard (reject if x == c) followed by body
-        if built and rejects(d) and len(live) == 1:
+        if built and rejects(d) and len(live) == 1 and live[0][2] is not None:
             cond_ = None
             for c in live[0][0]:
                 t = ne(scrut, N(c))
                 cond_ = t if cond_ is None else land(cond_, t)
             self.guard(cond_, d["ret"][1])
             return self._splice(live[0][1], live[0][2])
-        if built and not live and not rejects(d):
+        if built and not live and not rejects(d) and dchild is not None:
             for consts, s, _ in built:
                 for c in consts:
                     self.guard(eq(scrut, N(c)), s["ret"][1])
@@ -594,6 +669,13 @@ class Builder:
             for c in consts:
                 flat.append([c, s])
         flat.sort(key=lambda x: x[0])
+        # arms with the same grammar (up to binder names) share one sequence, whether the source wrote them as one
+        # or-pattern / range arm or as separate arms: binder numbering must not depend on that
+        import copy
+        canon_of = {}
+        for ent in flat:
+            key = json.dumps(renumber(copy.deepcopy(ent[1])), sort_keys=True)
+            ent[1] = canon_of.setdefault(key, ent[1])
         self.steps.append(["switch", b, scrut, flat, d])
         self._adv()
         return V(b)
@@ -981,6 +1063,9 @@ class Ev:
             if inner is not None:
                 # `expr?` in result position: expr is Result<(rem,val)>; the ? yields the tuple - not a Result
                 raise Opaque("? in result position")
+            if self.is_manual_complete(e):
+                # nom's `complete` written out: Incomplete becomes Error(Complete), everything else passes
+                return b.complete(lambda nb: self.eval_result_block(e["scrut"], env, gen, nb))
             return self.eval_match(e, env, gen, b, lambda body, env2, nb: self.eval_result_block(body, env2, gen, nb))
         if k == "call":
             f = strip(e["f"])
@@ -1010,6 +1095,22 @@ class Ev:
                 raise Opaque("Result::map with unrecognised closure")
             raise Opaque("method call in result position: " + nm)
         raise Opaque("result expression kind " + k)
+
+    def is_manual_complete(self, e):
+        arms = e["arms"]
+        if len(arms) != 2 or arms[0].get("guard") or arms[1].get("guard"):
+            return False
+        p0, p1 = arms[0]["pat"], arms[1]["pat"]
+        if not (p0["k"] == "ptuplestruct" and p0["res"].get("path") == "core::result::Result::Err" and len(p0["pats"]) == 1):
+            return False
+        q = p0["pats"][0]
+        if not (q["k"] == "ptuplestruct" and q["res"].get("path") == "nom::internal::Err::Incomplete" and len(q["pats"]) == 1 and q["pats"][0]["k"] in ("wild", "bind")):
+            return False
+        b0 = strip(arms[0]["body"])
+        if not (b0["k"] == "call" and path_of(b0["f"]) == "core::result::Result::Err" and self.err_kind(b0["args"][0]) == ("Complete", "Error")):
+            return False
+        b1 = strip(arms[1]["body"])
+        return p1["k"] == "bind" and not p1.get("sub") and b1["k"] == "local" and b1["id"] == p1["id"]
 
     def eval_ok_tuple(self, t, env, gen, b):
         t = strip(t)
@@ -1453,6 +1554,10 @@ class Ev:
                 default = (a, env2)
                 break
             cases.append((consts, a))
+        if default is None and len(cases) == 2 and sorted(c for cs, _ in cases for c in cs) == [0, 1] and strip(scrut_e).get("ty") == "bool":
+            arm_t = [a for cs, a in cases if cs == [1]][0]
+            arm_f = [a for cs, a in cases if cs == [0]][0]
+            return b.ite(scrut_val, lambda nb: arm_eval(arm_t["body"], env, nb), lambda nb: arm_eval(arm_f["body"], env, nb))
         if default is None:
             raise Opaque("match without catch-all arm")
         if default[0] == "guarded":
